@@ -186,7 +186,9 @@ def parent_main(args) -> int:
         "violations": len(violations),
         "repo": str(env.repo_dir()),
     }
-    evdir = VERIF_DIR / "evidence"
+    # evidence/ describes runs against /repo itself; a run pointed elsewhere (VERIF_REPO, used to try seeded
+    # changes in scratch worktrees) must not overwrite it
+    evdir = VERIF_DIR / ("evidence" if env.repo_dir() == Path("/repo") else "evidence-alt")
     evdir.mkdir(exist_ok=True)
     (evdir / f"{args.id}.json").write_text(
         json.dumps(evidence, indent=1, ensure_ascii=False, sort_keys=False) + "\n"
